@@ -359,12 +359,13 @@ struct Runner {
             if (!pc.s || pc.server || pc.pending_deadline == 0) continue;
             int fd = xcm_fd(pc.s);
             int rc = -1;
+            errno = EAGAIN;
             double t0 = now_s();
             while (now_s() - t0 < 1.2) {
                 api(88, [&] { return xcm_await(pc.s, 0); });
                 struct pollfd q = {fd, POLLIN, 0};
                 poll(&q, 1, 50);
-                if (!(q.revents & POLLIN)) continue; // follow the protocol: act only when woken
+                if (!(q.revents & POLLIN)) { errno = EAGAIN; continue; } // follow the protocol: act only when woken
                 rc = api(89, [&] { return xcm_finish(pc.s); });
                 if (rc == 0 || errno != EAGAIN) break;
             }
